@@ -21,9 +21,12 @@ structure Ext where
   floatRepr : Rat → List Char
   /-- `str(datetime)` of the date with this serial -/
   dateRepr : Rat → List Char
+  /-- `base ** exponent` for a non-integer exponent (float pow); `none` = OverflowError -/
+  powFrac : Rat → Rat → Option Rat
 
 /-- The `Ext` used by the drivers: no text is a date; float/date text forms are not produced. -/
-def Ext.none : Ext := ⟨fun _ => Option.none, fun _ => "<float>".toList, fun _ => "<datetime>".toList⟩
+def Ext.none : Ext :=
+  ⟨fun _ => Option.none, fun _ => "<float>".toList, fun _ => "<datetime>".toList, fun _ _ => Option.none⟩
 
 /-- A Python value as it can reach the library: native spellings, numpy scalars, the library's own
     typed objects and Excel errors. Dates are represented by their exact serial. -/
@@ -310,7 +313,7 @@ def blankOf : S → Option S
   | .num _ => some (.num (.int 0))
   | .text _ => some (.text [])
   | .bool _ => some (.bool false)
-  | .date _ => Option.none            -- `DateTime.__Blank__` returns None
+  | .date _ => some (.num (.int 0))   -- `DateTime.__Blank__` is None: `Blank._sort_key` then uses Number(0)
   | .blank => some (.num (.int 0))    -- handled before: two blanks have key (0, 0)
   | .err _ => Option.none
 
@@ -423,6 +426,32 @@ def percent (ext : Ext) (x : S) : OpR :=
   match isErr x with
   | some c => .val (.err c)
   | Option.none => OpR.ofNum (toNumber ext x) fun a => .val (.num (.flt (a.toRat * (1 / 100))))
+
+/-- is this number integer-valued? (`float(power) != int(power)` test of POWER) -/
+def Num.isIntegral (n : Num) : Bool := n.toRat.den = 1
+
+/-- Python `a ** b` on numbers for an integer-valued exponent: `int ** non-negative int` stays int,
+    everything else is float; exact over ideal reals. `base ≠ 0 ∨ exponent ≥ 0` is guaranteed by the
+    caller. -/
+def Num.powInt (a : Num) (e : Int) (expIsInt : Bool) : Num :=
+  match a, expIsInt, decide (0 ≤ e) with
+  | .int z, true, true => .int (z ^ e.toNat)
+  | _, _, _ => .flt (a.toRat ^ e)
+
+/-- `^` = `math.POWER(number, power)`: both `XlNumber`-cast; 0 to a negative power is #DIV/0!, a
+    negative base with a fractional exponent is #NUM!, overflow is #NUM!. -/
+def power (ext : Ext) (l r : S) : OpR :=
+  match firstErr l r with
+  | some c => .val (.err c)
+  | Option.none =>
+    OpR.ofNum (toNumber ext l) fun a => OpR.ofNum (toNumber ext r) fun b =>
+      if a.toRat = 0 ∧ b.toRat < 0 then .val (.err .div0)
+      else if a.toRat < 0 ∧ ¬ Num.isIntegral b then .val (.err .num)
+      else if Num.isIntegral b then
+        .val (.num (Num.powInt a b.toRat.num (match b with | .int _ => true | .flt _ => false)))
+      else match ext.powFrac a.toRat b.toRat with
+        | some q => .val (.num (.flt q))
+        | Option.none => .val (.err .num)
 
 /-- `&` = `text.CONCAT(l, r)`: both operands `Text.cast` (an error operand is returned). -/
 def concat (ext : Ext) (l r : S) : OpR :=
